@@ -11,10 +11,17 @@ from .core import Ctx, MachineryError, RUN
 from .tlc import run_tlc
 
 _GRAPH: t.Optional[list] = None
+_GRAPH_LOCK = __import__("threading").Lock()
 
 
 def graph(ctx: t.Optional[Ctx] = None) -> list[dict]:
     """Parent/KdfContext for all 1+32+32*32 nodes, exported by TLC from GkdiGraph.tla."""
+    global _GRAPH
+    with _GRAPH_LOCK:
+        return _graph_locked(ctx)
+
+
+def _graph_locked(ctx: t.Optional[Ctx] = None) -> list[dict]:
     global _GRAPH
     if _GRAPH is None:
         rundir = ctx.rundir if ctx else RUN / "shared"
